@@ -65,12 +65,13 @@ XtsDec(G1(_), F2(_), tweak, c) ==
                 prev == XtsBlk(G1, W.t, tail \o Drop(pp, r))
             IN W.acc \o prev \o Take(pp, r)
 
-\* ------------------------------------------------------------------ CCM (nonce 7..13 bytes, tag 4,6,..,16 bytes, Len(aad) < 65280)
+\* ------------------------------------------------------------------ CCM (nonce 7..13 bytes, tag 4,6,..,16 bytes, Len(aad) < 2^31)
 CcmL(nonce) == 15 - Len(nonce)
 CcmB0(nonce, mlen, alen, tl) == <<(IF alen > 0 THEN 64 ELSE 0) + 8 * ((tl - 2) \div 2) + (CcmL(nonce) - 1)>> \o nonce \o BE(CcmL(nonce), mlen)
 CcmA(nonce, i) == <<CcmL(nonce) - 1>> \o nonce \o BE(CcmL(nonce), i)
+CcmAadLen(n) == IF n < 65280 THEN BE(2, n) ELSE <<255, 254>> \o BE(4, n)           \* SP 800-38C A.2.2
 CcmMacInput(nonce, m, aad, tl) == CcmB0(nonce, Len(m), Len(aad), tl)
-                                  \o (IF Len(aad) > 0 THEN Pad0(BE(2, Len(aad)) \o aad, 16) ELSE <<>>)
+                                  \o (IF Len(aad) > 0 THEN Pad0(CcmAadLen(Len(aad)) \o aad, 16) ELSE <<>>)
                                   \o Pad0(m, 16)
 CbcMac(F(_), x) == LET n == NB(x)
                        X[i \in 0..n] == IF i = 0 THEN Zeros(16) ELSE F(XorB(X[i - 1], Blk(x, i)))
